@@ -78,6 +78,20 @@ func bankTransfer(c *LibCtx, from, to *Term, amt *Val, extraFail *Term) *Val {
 	nb := Const(freshName("bal"), bal.Sort)
 	c.st.Assume(Eq(nb, Ite(ok, b2, bal)))
 	c.st.Ghost["bal"] = valOfSort(nb)
+	// x/bank creates a base account for a recipient address that has none (and only then)
+	if _, hasAuth := c.st.Ghost["accTag"]; hasAuth {
+		at := c.x.authTypes()
+		if at.base != nil {
+			tags := ghostT(c.st, "accTag")
+			idBase := Num(int64(typeID(types.NewPointer(at.base))))
+			created := And(ok, Eq(Select(tags, to), Num(0)))
+			setGhostT(c, "accTag", Store(tags, to, Ite(created, idBase, Select(tags, to))))
+			for _, g := range []string{"accSeq", "accPub"} {
+				arr := ghostT(c.st, g)
+				setGhostT(c, g, Store(arr, to, Ite(created, Num(0), Select(arr, to))))
+			}
+		}
+	}
 	return err
 }
 
@@ -424,7 +438,7 @@ func init() {
 		libGhostWrites[B+n] = []string{"bal", "supply"}
 	}
 	for _, n := range []string{"SendCoinsFromModuleToModule", "SendCoinsFromModuleToAccount", "SendCoinsFromAccountToModule", "SendCoins"} {
-		libGhostWrites[B+n] = []string{"bal"}
+		libGhostWrites[B+n] = []string{"bal", "accTag", "accSeq", "accPub"}
 	}
 	libGhostWrites["(*"+pSdk+"EventManager).EmitTypedEvent"] = []string{"evCount", "evTag", "evRef"}
 }
